@@ -86,13 +86,13 @@ CLAIMS = {
             'Lunar before/after/== over all order types incl. a month and its leap twin (day and hour level); constructor guards; civil->lunar->civil and lunar->civil->lunar are the '
             'identity and order preserving for every day and every lunar date of two scenario years with leap months, using the repository\'s own search loop; the stored leap table and the '
             'solstice-month anchoring of the month records are checked as in C03/C04.',
-            'The scenario month records tile by construction; that the REAL records tile is numeric (C03). They are known not to at lunar years 8/9, 24/25, 239/240 (reform offsets) - outside this technique\'s reach, see DESIGN §5.',
+            'The scenario month records tile by construction; for the REAL records the cross-year lunation-count identity is checked for every year (TILE-CHAIN; known findings at lunar years 8/9, 23/24, 24/25). The break at 239/240 is outside reach (DESIGN 10.3); day-level new-moon values are numeric.',
             'DESIGN.md §3 C02'),
     'C03': ('packed-table analysis (TABLES) + real LunarMonth::new/next evaluated with the new-moon series stubbed + uniform-lunation model for the solstice anchor',
             'The leap-month table decoded by its own initialiser: 12 columns, strictly increasing years in range, no year under two months, 2-3 year intercalation gaps outside the code\'s own reform windows, '
             '7+-1 leap months per 19 years; leap lookup for every year -1..9999; guards and month<->position maps of LunarMonth::new/next for all 13 leap positions; "next month starts where this one ends" '
             'stride agreement; month 1 placed 2 (3) lunations after the lunation containing the winter solstice for all 30 lunar phases (model).',
-            'Not decided: 29/30-day lengths, abutting across years, year lengths (new-moon series values).', 'DESIGN.md §3 C03'),
+            'Consecutive lunar years abut as a lunation-count identity for every year 0..9998 (TILE-CHAIN; known findings at 8/9, 23/24, 24/25). Not decided: 29/30-day lengths, year lengths (new-moon series values), the 239/240 break.', 'DESIGN.md §3 C03'),
     'C04': ('packed-table necessary conditions + uniform-lunation model of the solstice-month anchoring (thin)',
             'Only necessary conditions: the stored leap table\'s order/uniqueness/intercalation rhythm, and that LunarMonth::new anchors month numbering on the lunation containing the winter solstice '
             '(evaluated against a uniform-lunation model for every lunar phase at the solstice, incl. a new moon on the solstice day).',
